@@ -23,6 +23,17 @@ token of the exchange the message belonged to.  Only retransmissions of CONFIRMA
 non-confirmable ones de-duplication is a SHOULD, §4.5; a repeated non-confirmable message counts as a new message, in
 favour of the implementation).
 
+Requests for which the LIBRARY chooses the token (the connection's request constructors ask the configured generator, by
+default random 8-byte tokens): the caller has no say in the token, so the property's premise "requests with distinct
+tokens" is the library's to provide, and "the content the peer produced for that request" is identified by the request the
+peer answered (the scripted peer echoes the token of the request it answers: `peerFor c`), not by the token value:
+
+* fresh-token     the token the library chooses for a request differs from the token of every request of the connection
+                  that has not returned yet;
+* peer-produced   (strengthened) a message the peer produced for request c is content for c only: a call c' ≠ c that returns
+                  it — a late duplicate of the answer to an earlier, finished exchange — did not get what the peer produced
+                  for it.
+
 "Outstanding" is read narrowly (in favour of the implementation): a token is outstanding from the start
 of an accepted call until that call returns *or* the peer has produced a message carrying the token
 (from then on the exchange is answered at protocol level even if the call has not returned yet).
@@ -41,6 +52,8 @@ inductive HEv
   | other (tok : Token) (tag : String)     -- a message of the peer was handed to somebody who is not a request call: an observation's
                                            -- callback or the connection's default handler
   | close
+  | startLib (c : Nat) (tok : Token) (direct : Bool)        -- a call whose token the library chose (seen on the wire)
+  | peerFor (c : Nat) (tok : Token) (tag : String) (complete : Bool)   -- the peer produced this message for request c (echoing its token)
   deriving Repr, DecidableEq
 
 /-- an accepted-or-not-yet-decided call -/
@@ -63,6 +76,7 @@ structure JState where
   mustAccept : List Nat := []
   expect : List Nat := []                  -- calls that must have returned their response at the next idle point
   closed : Bool := false
+  addressed : List (Nat × Nat) := []       -- position of a message of the peer ↦ the request it was produced for (where known)
   deriving Repr
 
 def count {α : Type} [DecidableEq α] (a : α) (l : List α) : Nat := (l.filter (· = a)).length
@@ -96,7 +110,8 @@ def jstep (s : JState) : HEv → Except String JState
     | some own =>
       if own ≠ tok then .error "own-token"
       else if s.mustReject.contains c then .error "reject-duplicate"
-      else if !(s.producedAt.any (fun p => p.1 = tok && p.2.1 = tag && p.2.2 > (s.startAt.lookup c).getD 0)) then .error "peer-produced"
+      else if !(s.producedAt.any (fun p => p.1 = tok && p.2.1 = tag && p.2.2 > (s.startAt.lookup c).getD 0 &&
+                  (match s.addressed.lookup p.2.2 with | some c' => c' = c | none => true))) then .error "peer-produced"
       else if count (tok, tag) s.delivered + 1 > count (tok, tag) s.produced then .error "single-receiver"
       else .ok { s with delivered := (tok, tag) :: s.delivered, active := s.active.filter (·.c ≠ c),
                         expect := s.expect.filter (· ≠ c) }
@@ -109,6 +124,21 @@ def jstep (s : JState) : HEv → Except String JState
     if count (tok, tag) s.delivered + 1 > count (tok, tag) s.produced then .error "single-receiver"
     else .ok { s with delivered := (tok, tag) :: s.delivered }
   | .close => .ok { s with closed := true, expect := [] }
+  | .startLib c tok direct =>
+    if s.active.any (fun a => a.tok = tok) then .error "fresh-token"
+    else
+      let s := { s with toks := (c, tok) :: s.toks, startAt := (c, s.clock) :: s.startAt,
+                        active := s.active ++ [⟨c, tok, false, direct && !s.closed⟩] }
+      if !s.closed && tok ≠ [] && tok.length ≤ 8 then .ok { s with mustAccept := c :: s.mustAccept } else .ok s
+  | .peerFor c tok tag complete =>
+    -- as `.peer`, but the message answers request c and nobody else
+    let cands := s.active.filter (fun a => a.tok = tok && a.c = c)
+    let exp := match cands with
+      | [a] => if complete && a.direct && !a.answered && !s.closed && !s.mustReject.contains a.c then [a.c] else []
+      | _ => []
+    .ok { s with produced := (tok, tag) :: s.produced, producedAt := (tok, tag, s.clock) :: s.producedAt,
+                 addressed := (s.clock, c) :: s.addressed, expect := exp ++ s.expect,
+                 active := s.active.map (fun a => if a.tok = tok && a.c = c then { a with answered := true } else a) }
 
 def jrun : JState → List HEv → Except String JState
   | s, [] => .ok s
